@@ -1388,13 +1388,14 @@ def replay(ctx, path):
               f"nodes_with_method_calls={len(log.method_calls)} visited_more_than_once={multi}")
         print(f"expected: no error, {len(v.nodes)} or fewer nodes each visited exactly once")
         return 1 if (err is not None or multi) else 0
-    if r.get("check") in ("function-bodies", "result-sharing", "edge-replacement", "edge-ladder", "flags", "collectors", "named-members"):
+    if r.get("check") in ("function-bodies", "result-sharing", "edge-replacement", "edge-ladder", "flags", "collectors", "named-members", "mapping-order"):
         from . import c13_collectors, c13_flags
         sub = common.Ctx(prop=ctx.prop, tier=ctx.tier, seed=ctx.seed)
         {"function-bodies": check_function_bodies, "result-sharing": check_result_sharing,
          "edge-replacement": check_edge_replacement, "edge-ladder": check_edge_ladders,
          "flags": lambda s_, t_: c13_flags.check_flags(s_),
          "collectors": c13_collectors.check_collectors,
+         "mapping-order": lambda s_, t_: __import__("harness.props.c13_mapping_order", fromlist=["x"]).check_mapping_order(s_),
          "named-members": lambda s_, t_: __import__("harness.props.c13_named", fromlist=["x"]).check_named_members(s_)}[r["check"]](sub, t)
         hits = [v_ for v_ in sub.violations if v_["signature"] == r.get("signature")] + \
             ([r["signature"]] if r.get("signature") in sub.known_hit else [])
